@@ -314,14 +314,14 @@ theorem subsetB_of_subset {xs ys : List Triple} (h : ∀ x, x ∈ xs → x ∈ y
 
 /-- The spec stream passes the judge that is run on the implementation's capture stream, under
 every range setting (so the judge demands nothing the spec does not have). -/
-theorem judgeA_captureStream (ms : List Match) (inc : Option TSRange) :
-    judgeA ms (captureStream ms) inc = true := by
+theorem judgeA_captureStream (ms : List Match) (inc : Option TSRange) (old : Bool) :
+    judgeA ms (captureStream ms) inc old = true := by
   unfold judgeA
   simp only [Bool.and_eq_true]
   refine ⟨⟨subsetB_of_perm (captureStream_triples ms), ?_⟩, captureStream_startSorted ms⟩
   apply subsetB_of_subset
   intro x hx
-  have hsub : ∀ e, e ∈ visibleEvents ms inc → e ∈ allEvents ms := by
+  have hsub : ∀ e, e ∈ visibleEvents ms inc old → e ∈ allEvents ms := by
     intro e he
     unfold visibleEvents at he
     cases inc with
